@@ -47,11 +47,12 @@ impl RawTableInner {
         ensures r.s@ == enum_upto(self.full_fn(), self.nb()), r.pos@ == 0,
     { unimplemented!() }
 
-    // contract of prepare_resize (allocation; R: r_resize, r_layouts, unit grow's with_capacity): a fresh,
-    // entirely EMPTY table with room for `capacity` elements, or an error (fallible mode only) and nothing done
+    // contract of prepare_resize: PROVED in unit `alloc` on the extracted text (down to the allocator call) and
+    // evaluated natively (r_resize, r_layouts): a fresh, entirely EMPTY table with room for `capacity` elements,
+    // or an error (fallible mode only) and nothing done
     #[verifier::external_body]
     pub fn prepare_resize<A: Allocator>(&self, alloc: &A, table_layout: TableLayout, capacity: usize, fallibility: Fallibility) -> (r: Result<RawTableInner, TryReserveError>)
-        requires self.items <= capacity,
+        requires self.items <= capacity, capacity > 0,
         ensures
             r matches Ok(t) ==> {
                 &&& t.shape() && t.mirrored()
